@@ -185,6 +185,8 @@ class Built:
                 pre=[ref(p) for p in x.pre_tasks],
                 init=[ref(p) for p in x.init_tasks],
                 sealed=bool(x._sealed),
+                craw=(None if x._raw_identifier is None else [x._raw_identifier.main.hex(), bool(x._raw_identifier.has_loops)]),
+                cfull=(None if x._full_identifier is None else x._full_identifier.main.hex()),
                 tags=sorted(x._tags.items()) if isinstance(x._tags, dict) else [],
             ))
             i += 1
